@@ -99,7 +99,18 @@ func history(c *drv.Ctx, bin string, seed int64, idx int) error {
 			// classify by the endpoint family of each difference for stable keys
 			fam := map[string][]string{}
 			for _, d := range diffs {
-				fam[family(d)] = append(fam[family(d)], d)
+				f := family(d)
+				// neuronjson keeps ONE in-memory db per branch head; when the master head moves onto another lineage
+				// (newversion on a merge child) that db keeps serving the old lineage's annotations until a restart
+				if strings.HasPrefix(f, "nj/") {
+					for _, u := range wd.H.D.Order {
+						n := wd.H.D.Nodes[u]
+						if strings.Contains(d, "/api/node/"+u+"/") && n.Branch == "" && len(n.Parents) == 1 && len(wd.H.D.Nodes[n.Parents[0]].Parents) >= 2 {
+							f = "nj:memdb-head-moved-onto-merge-lineage"
+						}
+					}
+				}
+				fam[f] = append(fam[f], d)
 			}
 			var fs []string
 			for f := range fam {
